@@ -232,6 +232,10 @@ class Server:
           which becomes available once another thread gathers the result from (another end of) the pipeline.
         """
         self._pipeline_notfull = threading.Condition()
+        self._uid_to_futures = {}
+        # Start with an empty ledger: requests abandoned in a previous
+        # `with` block (whose results were never collected) must not
+        # occupy capacity of this one.
         _enter_server(self)
         return self
 
@@ -518,6 +522,8 @@ class AsyncServer:
     async def __aenter__(self):
         self._pipeline_notfull = asyncio.Condition()
         self._pipeline_notfull_notifications = {}
+        self._uid_to_futures = {}
+        # Start with an empty ledger; see `Server.__enter__`.
         _enter_server(self, (asyncio.get_running_loop(),))
         return self
 
